@@ -5,16 +5,24 @@ OUT=$(realpath -m "$1"); PROFILE=${2:-dev}
 REPO=${ATSA_REPO:-/repo}
 export LD_LIBRARY_PATH=$(rustc +nightly --print sysroot)/lib
 export CARGO_NET_OFFLINE=true
-TD=/verif/.cache/target-$PROFILE
+V=$(dirname "$(realpath "$0")")
+DRV=$V/atsa/target/release/atsa-driver
+[ -x "$DRV" ] || DRV=/verif/atsa/target/release/atsa-driver
+TD=${ATSA_TARGET_DIR:-$V/.cache/target-$PROFILE}
+[ -d "$TD" ] || [ "$V" = /verif ] || { [ -d /verif/.cache/target-$PROFILE ] && TD=/verif/.cache/target-$PROFILE; }
 mkdir -p $TD
+# one extraction at a time per target directory (snapshots of /verif may share it)
+exec 9>$TD/.extract.lock
+flock 9
 NONCE=$(date +%s%N)-$$
 rm -rf $TD/debug/.fingerprint/ats-smart-contract-* $TD/release/.fingerprint/ats-smart-contract-* 2>/dev/null || true
 rm -f $OUT
 EXTRA=""
 [ "$PROFILE" = release ] && EXTRA="--release"
 cd $REPO
-RUSTFLAGS="-Zmir-opt-level=0 -Awarnings" RUSTC_WRAPPER=/verif/atsa/target/release/atsa-driver \
+RUSTFLAGS="-Zmir-opt-level=0 -Awarnings" RUSTC_WRAPPER=$DRV \
   ATSA_OUT=$OUT ATSA_NONCE=$NONCE CARGO_TARGET_DIR=$TD \
   cargo +nightly check --offline --lib $EXTRA >$OUT.log 2>&1 || { cat $OUT.log | tail -40; echo "EXTRACT-FAILED"; exit 3; }
+rm -f $OUT.log
 test -s $OUT || { echo "EXTRACT-FAILED: no fact file"; exit 3; }
 grep -q "\"nonce\":\"$NONCE\"" <(head -c 200 $OUT) || { echo "EXTRACT-FAILED: stale fact file"; exit 3; }
